@@ -1,6 +1,7 @@
 import GoframeModel.Ops.Join
 import GoframeModel.Spec.Join
 import GoframeModel.Lemmas.Refine
+import GoframeModel.Lemmas.Join
 /-
   C03 — joins follow relational semantics for inner, left, right and outer.
   The model is the code: nested loops over `Row(i)`, `mergeRows` (left value wins), `AppendRow` into
@@ -10,46 +11,42 @@ import GoframeModel.Lemmas.Refine
 namespace Goframe.C03
 open Goframe Frame
 
-/-- key cells are scalars on which Go `==` is an equivalence (no NaN) -/
-def PlainKeys (f : Frame) (k : Str) : Prop :=
-  ∀ c, f.get? k = some c → ∀ x ∈ c.data, x.plain = true
+-- Only `l.Sorted` (distinct, ordered keys of the left frame) is needed: model and specification read
+-- rows through the same `rowMap`, so even ragged operands are padded identically on both sides, and
+-- the matched-key list of OuterJoin is scanned with Go `==`, so NaN / -0 keys need no special hypothesis.
 
-theorem inner_spec {l r : Frame} {n m : Nat} (hl : l.Sorted) (hr : r.Sorted) (hln : l.RectN n) (hrn : r.RectN m)
-    (k : Str) (hkl : l.has k = true) (hkr : r.has k = true) :
+theorem inner_spec {l r : Frame} (hl : l.Sorted) (k : Str) (hkl : l.has k = true) (hkr : r.has k = true) :
     l.innerJoin r k = .ok (Spec.ofRows (Spec.sortedUnion l.keys r.keys)
       (Spec.innerRows (Spec.rowsOf l) (Spec.rowsOf r) k)) := by
-  sorry
+  exact Spec.innerJoin_eq hl k hkl hkr
 
-theorem left_spec {l r : Frame} {n m : Nat} (hl : l.Sorted) (hr : r.Sorted) (hln : l.RectN n) (hrn : r.RectN m)
-    (k : Str) (hkl : l.has k = true) (hkr : r.has k = true) :
+theorem left_spec {l r : Frame} (hl : l.Sorted) (k : Str) (hkl : l.has k = true) (hkr : r.has k = true) :
     l.leftJoin r k = .ok (Spec.ofRows (Spec.sortedUnion l.keys r.keys)
       (Spec.leftRows (Spec.rowsOf l) (Spec.rowsOf r) k)) := by
-  sorry
+  exact Spec.leftJoin_eq hl k hkl hkr
 
-theorem right_spec {l r : Frame} {n m : Nat} (hl : l.Sorted) (hr : r.Sorted) (hln : l.RectN n) (hrn : r.RectN m)
-    (k : Str) (hkl : l.has k = true) (hkr : r.has k = true) :
+theorem right_spec {l r : Frame} (hl : l.Sorted) (k : Str) (hkl : l.has k = true) (hkr : r.has k = true) :
     l.rightJoin r k = .ok (Spec.ofRows (Spec.sortedUnion l.keys r.keys)
       (Spec.rightRows (Spec.rowsOf l) (Spec.rowsOf r) k)) := by
-  sorry
+  exact Spec.rightJoin_eq hl k hkl hkr
 
-/-- OuterJoin = LeftJoin result followed by the unmatched right rows in their own order.
-Needs key cells without NaN: the code remembers matched keys in a Go map. -/
-theorem outer_spec {l r : Frame} {n m : Nat} (hl : l.Sorted) (hr : r.Sorted) (hln : l.RectN n) (hrn : r.RectN m)
-    (k : Str) (hkl : l.has k = true) (hkr : r.has k = true) (hpl : PlainKeys l k) (hpr : PlainKeys r k) :
+/-- OuterJoin = LeftJoin result followed by the unmatched right rows in their own order. -/
+theorem outer_spec {l r : Frame} (hl : l.Sorted) (k : Str) (hkl : l.has k = true) (hkr : r.has k = true) :
     l.outerJoin r k = .ok (Spec.ofRows (Spec.sortedUnion l.keys r.keys)
       (Spec.outerRows (Spec.rowsOf l) (Spec.rowsOf r) k)) := by
-  sorry
+  exact Spec.outerJoin_eq hl k hkl hkr
 
 /-- a missing key column is an error, for every join kind -/
 theorem join_missing_key (l r : Frame) (k : Str) (h : l.has k = false ∨ r.has k = false) :
     (l.innerJoin r k).isErr = true ∧ (l.leftJoin r k).isErr = true ∧
     (l.rightJoin r k).isErr = true ∧ (l.outerJoin r k).isErr = true := by
-  sorry
+  obtain ⟨e, he⟩ := Spec.checkExists_err h
+  simp [Frame.innerJoin, Frame.leftJoin, Frame.rightJoin, Frame.outerJoin, he, Outcome.isErr]
 
 /-- the result carries the union of both frames' columns and is rectangular -/
-theorem join_columns {l r : Frame} (names : List Str) (rows : List Row) :
+theorem join_columns (names : List Str) (rows : List Row) :
     (Spec.ofRows names rows).keys = names ∧ (Spec.ofRows names rows).RectN rows.length := by
-  sorry
+  exact ⟨Spec.keys_ofRows names rows, Spec.rectN_ofRows names rows⟩
 
 /-- keys of different Go types never match: `1`, `int64(1)`, `1.0` and `"1"` are four different keys -/
 example : (Cell.int .int 1).goEq (.int .int64 1) = false ∧ (Cell.int .int 1).goEq (.str [49]) = false ∧
